@@ -2,10 +2,18 @@
 // Loop-free, full input domain => each successful harness is a complete proof (DESIGN.md U-kernels).
 use super::*;
 
+// `format!` on the (normally unreachable) error paths dominates CBMC's cost; the text of an error message is
+// irrelevant to every claim made here.
+#[allow(dead_code)]
+fn stub_format(_args: core::fmt::Arguments<'_>) -> String {
+    String::new()
+}
+
 macro_rules! codec_int {
     ($rt:ident, $pt:ident, $t:ty, $n:expr) => {
         /// parse(serialize(x)) == x and serialize(x).len() == size(), for every value of the type
         #[kani::proof]
+        #[kani::stub(std::fmt::format, stub_format)]
         fn $rt() {
             let x: $t = kani::any();
             let b = x.serialize();
@@ -17,6 +25,7 @@ macro_rules! codec_int {
         }
         /// parse never errs on a slice of the right length, and serialize(parse(d)) == d for every byte pattern
         #[kani::proof]
+        #[kani::stub(std::fmt::format, stub_format)]
         fn $pt() {
             let d: [u8; $n] = kani::any();
             assert!(<$t as Sample>::size() == $n);
@@ -41,6 +50,7 @@ codec_int!(codec_i32_roundtrip, codec_i32_parse_total, i32, 4);
 
 /// Float: bit-identical for every bit pattern, NaN payloads included
 #[kani::proof]
+#[kani::stub(std::fmt::format, stub_format)]
 fn codec_float_roundtrip() {
     let bits: u32 = kani::any();
     let x = Float::from_bits(bits);
@@ -52,6 +62,7 @@ fn codec_float_roundtrip() {
     }
 }
 #[kani::proof]
+#[kani::stub(std::fmt::format, stub_format)]
 fn codec_float_parse_total() {
     let d: [u8; 4] = kani::any();
     match <Float as Sample>::parse(&d) {
@@ -64,6 +75,7 @@ fn codec_float_parse_total() {
 }
 /// Complex: both halves bit-identical, I first then Q
 #[kani::proof]
+#[kani::stub(std::fmt::format, stub_format)]
 fn codec_complex_roundtrip() {
     let re: u32 = kani::any();
     let im: u32 = kani::any();
@@ -82,6 +94,7 @@ fn codec_complex_roundtrip() {
     }
 }
 #[kani::proof]
+#[kani::stub(std::fmt::format, stub_format)]
 fn codec_complex_parse_total() {
     let d: [u8; 8] = kani::any();
     match <Complex as Sample>::parse(&d) {
